@@ -41,6 +41,7 @@ type E2EInput struct {
 	TamperEvery int    `json:"tamper_every,omitempty"` // alter every k-th protected RTP unit on its way to the receiver
 	TamperByte  bool   `json:"tamper_byte,omitempty"`  // whole byte instead of a single bit
 	TamperRTCP  bool   `json:"tamper_rtcp,omitempty"`  // also alter every second RTCP unit
+	FirstSSRC   bool   `json:"first_ssrc,omitempty"`   // flip one bit of the SSRC field of the very first RTP unit of each format
 	Seed        uint64 `json:"seed"`
 }
 
@@ -152,6 +153,12 @@ func (w *wire) incoming(side string, b []byte) {
 	}
 	k := pktKey{b[1] & 0x7f, w.inUnwrap.idx(b[1]&0x7f, uint16(b[2])<<8|uint16(b[3]), w.in.StartSeq)}
 	w.rtpSeen++
+	if w.in.FirstSSRC && k.idx == 0 {
+		b[8+w.rng.IntN(4)] ^= 1 << w.rng.IntN(8)
+		w.tampered[k] = true
+		w.nTampered++
+		return
+	}
 	if w.in.TamperEvery > 0 && w.rtpSeen%w.in.TamperEvery == 0 {
 		w.alter(b)
 		w.tampered[k] = true
